@@ -177,6 +177,7 @@ type Exec struct {
 	st       *State
 	work     []*State
 
+	allocFacts map[*Term]bool // "this stored reference is allocated" facts (kept under quantifier binders)
 	obls     map[string]*Obligation
 	oblList  []*Obligation
 	regionSorts      map[string]*Sort
@@ -329,8 +330,10 @@ func (ex *Exec) oblige(kind string, site string, pos token.Pos, text string, con
 	}
 	if !cond.IsTrue() {
 		pc := append([]*Term(nil), ex.st.pc...)
-		pc = append(pc, ex.instantiateHints(pc)...)
-		ob.Paths = append(ob.Paths, ObPath{PC: pc, Cond: cond, Trace: append([]string(nil), ex.st.trace...)})
+		// universally quantified goals are proved for fresh constants, and the path facts are instantiated at them
+		goal, sks := ex.skolemizeGoal(cond)
+		pc = append(pc, ex.instantiateAt(pc, append(append([]*Term(nil), ex.st.hints...), sks...))...)
+		ob.Paths = append(ob.Paths, ObPath{PC: pc, Cond: goal, Trace: append([]string(nil), ex.st.trace...)})
 	} else if len(ob.Paths) == 0 {
 		// keep the obligation visible even when it folded to true on every path
 	}
@@ -1016,40 +1019,118 @@ func (ex *Exec) addHint(t *Term) {
 	}
 }
 
+// skolemizeGoal replaces universal quantifiers in positive position of a goal (under and / the consequent of =>) by fresh
+// constants: proving the instance for arbitrary constants proves the quantified goal.
+func (ex *Exec) skolemizeGoal(g *Term) (*Term, []*Term) {
+	ts := ex.ts
+	var sks []*Term
+	var rec func(t *Term, depth int) *Term
+	rec = func(t *Term, depth int) *Term {
+		if depth > 6 || len(sks) > 8 {
+			return t
+		}
+		switch t.Op {
+		case "and":
+			args := make([]*Term, len(t.Args))
+			for i, a := range t.Args {
+				args[i] = rec(a, depth+1)
+			}
+			return ts.And(args...)
+		case "=>":
+			return ts.Implies(t.Args[0], rec(t.Args[1], depth+1))
+		case "forall":
+			m := map[*Term]*Term{}
+			for _, b := range t.Binds {
+				c := ts.Fresh("sk|"+b.Name, b.S)
+				m[b] = c
+				sks = append(sks, c)
+			}
+			return rec(ts.Subst(t.Args[0], m), depth+1)
+		}
+		return t
+	}
+	if g.bound {
+		return g, nil
+	}
+	r := rec(g, 0)
+	if r.bound {
+		// a binder could not be eliminated consistently: keep the original goal
+		return g, nil
+	}
+	return r, sks
+}
+
 // instantiateHints: E-matching on arithmetic index terms is unreliable in the solvers, so every single-variable
 // universal fact of the path is instantiated here at the index terms the program used (sound: instances of assumed facts).
 func (ex *Exec) instantiateHints(pc []*Term) []*Term {
-	if len(ex.st.hints) == 0 {
+	return ex.instantiateAt(pc, ex.st.hints)
+}
+
+// instantiateAt instantiates the universal facts of the path (also those nested under conjunctions and consequents of
+// the instances produced) at the given ground terms.
+func (ex *Exec) instantiateAt(pc []*Term, hints []*Term) []*Term {
+	if len(hints) == 0 {
 		return nil
 	}
+	ts := ex.ts
 	var out []*Term
 	seen := map[*Term]bool{}
-	var visit func(t *Term)
-	visit = func(t *Term) {
-		if t.Op == "and" {
+	budget := 600
+	// inst returns ground consequences of fact t (true under the guards collected so far)
+	var visit func(t *Term, guard []*Term, depth int)
+	emit := func(t *Term, guard []*Term) {
+		if t.bound || budget <= 0 {
+			return
+		}
+		budget--
+		if len(guard) > 0 {
+			t = ts.Implies(ts.And(guard...), t)
+		}
+		out = append(out, t)
+	}
+	visit = func(t *Term, guard []*Term, depth int) {
+		if budget <= 0 || depth > 5 {
+			return
+		}
+		switch t.Op {
+		case "and":
 			for _, a := range t.Args {
-				visit(a)
+				if a.Op == "and" || a.Op == "forall" || a.Op == "=>" {
+					visit(a, guard, depth)
+				}
 			}
-			return
-		}
-		if t.Op != "forall" || len(t.Binds) != 1 || seen[t] {
-			return
-		}
-		seen[t] = true
-		b := t.Binds[0]
-		for _, h := range ex.st.hints {
-			if h.S != b.S {
-				continue
+		case "=>":
+			if depth == 0 {
+				return
 			}
-			inst := ex.ts.Subst(t.Args[0], map[*Term]*Term{b: h})
-			if !inst.bound {
-				out = append(out, inst)
+			c := t.Args[1]
+			if c.Op == "and" || c.Op == "forall" || c.Op == "=>" {
+				visit(c, append(append([]*Term(nil), guard...), t.Args[0]), depth)
+			}
+		case "forall":
+			if len(t.Binds) != 1 {
+				return
+			}
+			if depth == 0 {
+				if seen[t] {
+					return
+				}
+				seen[t] = true
+			}
+			b := t.Binds[0]
+			for _, h := range hints {
+				if h.S != b.S {
+					continue
+				}
+				inst := ts.Subst(t.Args[0], map[*Term]*Term{b: h})
+				emit(inst, guard)
+				visit(inst, guard, depth+1)
 			}
 		}
 	}
 	n := 0
 	for i := len(pc) - 1; i >= 0 && n < 400; i-- {
-		visit(pc[i])
+		visit(pc[i], nil, 0)
 		n++
 	}
 	return out
